@@ -56,6 +56,18 @@ Theorem C14_override_in_effect :
 Proof. exact override_in_effect. Qed.
 Print Assumptions C14_override_in_effect.
 
+(* degenerate arguments (empty batch / empty config string / file without a line; an argument of the wrong type, a file that
+   is not there): no decorated call is reached, so whatever override was passed is never set - the state, observations
+   included, is exactly what it was *)
+Theorem C14_degenerate_calls_touch_nothing :
+  forall c o stop e x s,
+    run_op c (OSendCommands o stop []) s = (s, Ok)
+    /\ run_op c (ONet PNone (OSendCommands o stop [])) s = (s, Ok)
+    /\ run_op c (ONet (PNoIo e) x) s = (s, Raised e)
+    /\ core (fst (run_op c (OSendCommands o stop [BPre e]) s)) = core s.
+Proof. exact degenerate_calls_touch_nothing. Qed.
+Print Assumptions C14_degenerate_calls_touch_nothing.
+
 (* the thread based timeout of the sync stack (system / telnet transports, windows, off the main thread):
    the pool's exit joins the worker, so when ScrapliTimeout reaches the caller the worker has left the
    timed read loop through its finally: both timeouts (and the session's) are what they were at the moment
